@@ -89,7 +89,9 @@ Proof.
 Qed.
 
 Lemma gather_len : forall ni w p i n, length (c06_gather ni w p i n) = n.
-Proof. intros. unfold c06_gather. rewrite map_length, seq_length. reflexivity. Qed.
+Proof.
+  intros. unfold c06_gather. generalize 0 as cur. induction n; intros cur; simpl; auto.
+Qed.
 
 Lemma vdescs_rank_ok : forall backward buf ni w np sizes es p o,
   c06_case_ok_var backward buf np sizes es = true -> p < np -> In o (c06_vdescs_rank backward ni w sizes es p) ->
